@@ -148,13 +148,6 @@ func vh_reduce() {
 	vObserve("flag", f)
 	vObserve("X", x)
 	vObserve("X0", x0)
-	var in [32]byte
-	copy(in[:], vNondetBytes("in", 32))
-	nm := bytesToNonMontgomery(in)
-	vObserve("nm", *nm)
-	y := NonMontgomeryDomainFieldElement(vLimbs("y"))
-	vObserve("tobytes", nonMontgomeryToBytes(&y))
-	vObserve("Y", y)
 }
 
 // alias: 0 receiver distinct from operands, 1 e==u, 2 e==v
